@@ -754,6 +754,9 @@ func rulesC01(c *Ctx) {
 	tablesC01(c)
 	optionsC01(c)
 	strconvRule(c, "C01.strconv")
+	subqueryFlagC01(c)
+	keywordLookupRule(c, "C01.kwlookup")
+	callArgsC01(c)
 	charWidthRule(c, "C01.charwidth")
 	// how operators group is part of the AST a text denotes
 	importRules(c, rulesC03, "C03.", "C01.grouping-", func(r string) bool {
